@@ -12,17 +12,21 @@ model's machinery; the same judge is evaluated by the harness on the trace of th
 namespace KG.Props.C03
 open KG KG.Model.Endpoints KG.Spec.Endpoints KG.Lemmas.Endpoints
 
+/-! every theorem holds whether or not `MatchAttributes` gives each dispatch policy its own cursor scope (`ps`): the cursors
+    decide WHICH eligible endpoint is picked, never whether an ineligible one can be -/
+variable (ps : Bool)
+
 /-- the state the model reaches on a history -/
-def stateOf (ops : List Op) : State := (run init ops).1
+def stateOf (ops : List Op) : State := (run (initScoped ps) ops).1
 /-- the abstract (spec-level) state the same history leads to -/
-def absOf (ops : List Op) : Abs := absRun Abs.init (modelTrace init ops)
+def absOf (ops : List Op) : Abs := absRun Abs.init (modelTrace (initScoped ps) ops)
 
 /-- **C03, trace form**: for every history, every observable output of the model passes the judge: a request is
     answered with an endpoint only if it is in its policy's upstream list, in the current server list, enabled, and
     healthy by the last report; "no ready endpoints" only if no such endpoint exists; a probe is sent only to a
     current, enabled server. -/
-theorem c03_trace_judged (ops : List Op) : judgeTrace Abs.init (modelTrace init ops) = true :=
-  judge_run sim_init ops
+theorem c03_trace_judged (ops : List Op) : judgeTrace Abs.init (modelTrace (initScoped ps) ops) = true :=
+  judge_run (sim_initScoped ps) ops
 
 private theorem sim_run {s : State} {a : Abs} (h : Sim s a) (ops : List Op) :
     Sim (run s ops).1 (absRun a (modelTrace s ops)) := by
@@ -33,26 +37,26 @@ private theorem sim_run {s : State} {a : Abs} (h : Sim s a) (ops : List Op) :
     simpa [run, modelTrace, absRun] using this
 
 /-- every reachable state is in simulation with the abstract state of its history -/
-theorem c03_reachable_sim (ops : List Op) : Sim (stateOf ops) (absOf ops) := sim_run sim_init ops
+theorem c03_reachable_sim (ops : List Op) : Sim (stateOf ps ops) (absOf ps ops) := sim_run (sim_initScoped ps) ops
 
 /-- the endpoint map has one object per distinct server of the last spec -/
 theorem c03_endpoints_are_servers (ops : List Op) (n : Name) :
-    (load (stateOf ops).eps n).isSome = (serverNames (absOf ops).servers).contains n :=
-  (c03_reachable_sim ops).dom n
+    (load (stateOf ps ops).eps n).isSome = (serverNames (absOf ps ops).servers).contains n :=
+  (c03_reachable_sim ps ops).dom n
 
 /-- **pick soundness** in every reachable state, for every request in flight (also one matched before later Syncs):
     the endpoint handed out is in the upstream list its policy gave the request, in the cluster's current server list,
     not marked disabled there, healthy by the last report since it entered the list, and is the current object. -/
 theorem c03_pick_sound (ops : List Op) (j : Nat) (n : Name) (g : Nat)
-    (h : (step (stateOf ops) (.pop j)).2 = .popped (.picked n g)) :
-    ∃ us, (absOf ops).pickers[j]? = some (some us) ∧ n ∈ us ∧
-      n ∈ serverNames (absOf ops).servers ∧ specDisabled (absOf ops).servers n = false ∧
-      (absOf ops).healthy n = true ∧ g = (absOf ops).bornAt n := by
-  have hs := c03_reachable_sim ops
+    (h : (step (stateOf ps ops) (.pop j)).2 = .popped (.picked n g)) :
+    ∃ us, (absOf ps ops).pickers[j]? = some (some us) ∧ n ∈ us ∧
+      n ∈ serverNames (absOf ps ops).servers ∧ specDisabled (absOf ps ops).servers n = false ∧
+      (absOf ps ops).healthy n = true ∧ g = (absOf ps ops).bornAt n := by
+  have hs := c03_reachable_sim ps ops
   have hj := (sim_step hs (.pop j)).1
   rw [h] at hj
   simp only [judgeStep] at hj
-  cases hp : (absOf ops).pickers[j]? with
+  cases hp : (absOf ps ops).pickers[j]? with
   | none => simp [hp] at hj
   | some pk =>
     cases pk with
@@ -73,17 +77,18 @@ theorem c03_pick_ready (eps : List EP) (lb : List (Key × Nat)) (us : List Name)
 /-- **completeness**: the request gets an endpoint iff an eligible one exists in its upstream list; otherwise the
     answer is exactly "no ready endpoints" (`ErrNoReadyEndpoints`), which the dispatcher maps to 503. -/
 theorem c03_pick_complete (ops : List Op) (j : Nat) (us : List Name)
-    (hp : (absOf ops).pickers[j]? = some (some us)) :
-    ((∃ n, n ∈ us ∧ (absOf ops).eligible n = true) → ∃ n g, (step (stateOf ops) (.pop j)).2 = .popped (.picked n g)) ∧
-    ((∀ n, n ∈ us → (absOf ops).eligible n = false) → (step (stateOf ops) (.pop j)).2 = .popped .noReady) := by
-  have hs := c03_reachable_sim ops
+    (hp : (absOf ps ops).pickers[j]? = some (some us)) :
+    ((∃ n, n ∈ us ∧ (absOf ps ops).eligible n = true) → ∃ n g, (step (stateOf ps ops) (.pop j)).2 = .popped (.picked n g)) ∧
+    ((∀ n, n ∈ us → (absOf ps ops).eligible n = false) → (step (stateOf ps ops) (.pop j)).2 = .popped .noReady) := by
+  have hs := c03_reachable_sim ps ops
   have hj := (sim_step hs (.pop j)).1
-  have hpk : (stateOf ops).pickers[j]? = some (some us) := by rw [hs.pickers]; exact hp
-  have hout : (step (stateOf ops) (.pop j)).2 = .popped (pop (stateOf ops).eps (stateOf ops).lb us).1 := by
+  have hpk : (stateOf ps ops).pickers[j]? = some (some us) := by rw [hs.pickers]; exact hp
+  have hout : (step (stateOf ps ops) (.pop j)).2
+      = .popped (popScoped (pickerTag (stateOf ps ops) j) (stateOf ps ops).eps (stateOf ps ops).lb us).1 := by
     simp [step, hpk]
   rw [hout] at hj ⊢
   simp only [judgeStep, hp] at hj
-  cases hr : (pop (stateOf ops).eps (stateOf ops).lb us).1 with
+  cases hr : (popScoped (pickerTag (stateOf ps ops) j) (stateOf ps ops).eps (stateOf ps ops).lb us).1 with
   | picked n g =>
     refine ⟨fun _ => ⟨n, g, rfl⟩, fun hall => ?_⟩
     rw [hr] at hj
@@ -95,7 +100,7 @@ theorem c03_pick_complete (ops : List Op) (j : Nat) (us : List Name)
     rw [hr] at hj
     simp only [List.all_eq_true, Bool.not_eq_true'] at hj
     rw [hj n hn] at he; cases he
-  | panic => exact absurd hr (pop_never_panics _ _ _)
+  | panic => exact absurd hr (popScoped_never_panics _ _ _ _)
 
 /-- `Pop` never indexes out of range -/
 theorem c03_pop_never_panics (eps : List EP) (lb : List (Key × Nat)) (us : List Name) : (pop eps lb us).1 ≠ .panic :=
@@ -104,14 +109,14 @@ theorem c03_pop_never_panics (eps : List EP) (lb : List (Key × Nat)) (us : List
 /-- what a request may be sent to: the policy's subset when it has one, otherwise every server of the current list
     (each once) and nothing else -/
 theorem c03_upstreams_of_request (ops : List Op) (policy : Nat) (order us : List Name)
-    (h : (step (stateOf ops) (.matchAttrs policy order)).2 = .matched us) :
-    ∃ subset, (absOf ops).policies[policy]? = some subset ∧
-      ((subset ≠ [] ∧ us = subset) ∨ (subset = [] ∧ us.Perm (dedup (serverNames (absOf ops).servers)))) := by
-  have hs := c03_reachable_sim ops
+    (h : (step (stateOf ps ops) (.matchAttrs policy order)).2 = .matched us) :
+    ∃ subset, (absOf ps ops).policies[policy]? = some subset ∧
+      ((subset ≠ [] ∧ us = subset) ∨ (subset = [] ∧ us.Perm (dedup (serverNames (absOf ps ops).servers)))) := by
+  have hs := c03_reachable_sim ps ops
   have hj := (sim_step hs (.matchAttrs policy order)).1
   rw [h] at hj
   simp only [judgeStep] at hj
-  cases hp : (absOf ops).policies[policy]? with
+  cases hp : (absOf ps ops).policies[policy]? with
   | none => simp [hp] at hj
   | some subset =>
     refine ⟨subset, rfl, ?_⟩
@@ -129,26 +134,26 @@ theorem c03_upstreams_of_request (ops : List Op) (policy : Nat) (order us : List
 /-- **disabled ⇒ not probed, enabled ⇒ probed**, in every reachable state (in particular after every Sync): an endpoint
     object is marked disabled exactly when the last spec marks its server disabled, and a health-check worker is alive
     for it exactly when it is enabled. -/
-theorem c03_probing_iff_enabled (ops : List Op) (n : Name) (e : EP) (h : load (stateOf ops).eps n = some e) :
-    e.disabled = specDisabled (absOf ops).servers n ∧ e.probing = !specDisabled (absOf ops).servers n := by
-  obtain ⟨h1, _, _, h4⟩ := (c03_reachable_sim ops).ep n e h
+theorem c03_probing_iff_enabled (ops : List Op) (n : Name) (e : EP) (h : load (stateOf ps ops).eps n = some e) :
+    e.disabled = specDisabled (absOf ps ops).servers n ∧ e.probing = !specDisabled (absOf ps ops).servers n := by
+  obtain ⟨h1, _, _, h4⟩ := (c03_reachable_sim ps ops).ep n e h
   exact ⟨h1, by rw [h4, h1]⟩
 
 /-- after every Sync, from every reachable state: every server of the spec just synced has an object, which is marked
     disabled iff the spec says so and is probed iff it is enabled -/
 theorem c03_after_sync (ops : List Op) (servers : List Server) (pols : List (List Name)) (n : Name)
     (hn : n ∈ serverNames servers) :
-    ∃ e, load (step (stateOf ops) (.sync servers pols)).1.eps n = some e ∧
+    ∃ e, load (step (stateOf ps ops) (.sync servers pols)).1.eps n = some e ∧
       e.disabled = specDisabled servers n ∧ e.probing = !specDisabled servers n := by
-  have hs := (sim_step (c03_reachable_sim ops) (.sync servers pols)).2
-  have hout : (step (stateOf ops) (.sync servers pols)).2 = .none := rfl
+  have hs := (sim_step (c03_reachable_sim ps ops) (.sync servers pols)).2
+  have hout : (step (stateOf ps ops) (.sync servers pols)).2 = .none := rfl
   rw [hout] at hs
-  have hsrv : (absStep (absOf ops) (.sync servers pols) .none).servers = servers := rfl
+  have hsrv : (absStep (absOf ps ops) (.sync servers pols) .none).servers = servers := rfl
   have hdom := hs.dom n
-  have hin : (absStep (absOf ops) (.sync servers pols) .none).inServers n = true := by
+  have hin : (absStep (absOf ps ops) (.sync servers pols) .none).inServers n = true := by
     simp [Abs.inServers, hsrv, hn]
   rw [hin] at hdom
-  cases hl : load (step (stateOf ops) (.sync servers pols)).1.eps n with
+  cases hl : load (step (stateOf ps ops) (.sync servers pols)).1.eps n with
   | none => rw [hl] at hdom; cases hdom
   | some e =>
     obtain ⟨h1, _, _, h4⟩ := hs.ep n e hl
@@ -157,9 +162,9 @@ theorem c03_after_sync (ops : List Op) (servers : List Server) (pols : List (Lis
 
 /-- a probe that fires goes to a current, enabled server (a disabled endpoint receives no probe) -/
 theorem c03_probe_only_enabled (ops : List Op) (n : Name) (hv : Bool) (n' : Name) (g : Nat)
-    (h : (step (stateOf ops) (.probeFire n hv)).2 = .fired n' g) :
-    n' = n ∧ n ∈ serverNames (absOf ops).servers ∧ specDisabled (absOf ops).servers n = false := by
-  have hj := (sim_step (c03_reachable_sim ops) (.probeFire n hv)).1
+    (h : (step (stateOf ps ops) (.probeFire n hv)).2 = .fired n' g) :
+    n' = n ∧ n ∈ serverNames (absOf ps ops).servers ∧ specDisabled (absOf ps ops).servers n = false := by
+  have hj := (sim_step (c03_reachable_sim ps ops) (.probeFire n hv)).1
   rw [h] at hj
   simp only [judgeStep, Bool.and_eq_true, beq_iff_eq, Abs.enabled, Abs.inServers, Bool.not_eq_true',
     List.contains_eq_mem, decide_eq_true_eq] at hj
@@ -167,9 +172,9 @@ theorem c03_probe_only_enabled (ops : List Op) (n : Name) (hv : Bool) (n' : Name
 
 /-- an endpoint that (re)enters the server list has no health report yet: it gets no traffic before its first healthy report -/
 theorem c03_new_server_not_eligible (ops : List Op) (servers : List Server) (pols : List (List Name)) (n : Name)
-    (hnew : (absOf ops).inServers n = false) :
-    (absStep (absOf ops) (.sync servers pols) .none).eligible n = false := by
-  have hr := (c03_reachable_sim ops).rep n hnew
+    (hnew : (absOf ps ops).inServers n = false) :
+    (absStep (absOf ps ops) (.sync servers pols) .none).eligible n = false := by
+  have hr := (c03_reachable_sim ps ops).rep n hnew
   simp only [Abs.eligible, Abs.healthy, absStep]
   rw [report_lookup_sync]
   by_cases hn : n ∈ serverNames servers <;> simp [hn, hr]
@@ -221,11 +226,11 @@ private theorem run_length (s : State) (xs : List Op) : (run s xs).2.length = xs
   | nil => simp [run]
   | cons x xs ih => simp [run, ih]
 
-theorem stateOf_snoc (ops : List Op) (op : Op) : stateOf (ops ++ [op]) = (step (stateOf ops) op).1 := by
+theorem stateOf_snoc (ops : List Op) (op : Op) : stateOf ps (ops ++ [op]) = (step (stateOf ps ops) op).1 := by
   simp [stateOf, run_append, run]
 
 theorem absOf_snoc (ops : List Op) (op : Op) :
-    absOf (ops ++ [op]) = absStep (absOf ops) op (step (stateOf ops) op).2 := by
+    absOf ps (ops ++ [op]) = absStep (absOf ps ops) op (step (stateOf ps ops) op).2 := by
   unfold absOf modelTrace absRun
   rw [run_append]
   simp only
@@ -235,11 +240,11 @@ theorem absOf_snoc (ops : List Op) (op : Op) :
 /-- **an endpoint whose last probe answer is not the healthy answer is never picked**: after a probe of `n` that was answered
     anything but `200`, no request in flight can be handed `n` (until a later report says otherwise) -/
 theorem c03_unhealthy_answer_not_picked (ops : List Op) (n : Name) (ans : ProbeAnswer) (hans : ∀ b, ans ≠ .status 200 b)
-    (n' : Name) (g' : Nat) (hf : (step (stateOf ops) (.probeFire n (gatewayHealthCheck ans))).2 = .fired n' g')
+    (n' : Name) (g' : Nat) (hf : (step (stateOf ps ops) (.probeFire n (gatewayHealthCheck ans))).2 = .fired n' g')
     (j : Nat) (g : Nat) :
-    (step (stateOf (ops ++ [.probeFire n (gatewayHealthCheck ans)])) (.pop j)).2 ≠ .popped (.picked n g) := by
+    (step (stateOf ps (ops ++ [.probeFire n (gatewayHealthCheck ans)])) (.pop j)).2 ≠ .popped (.picked n g) := by
   intro hp
-  obtain ⟨_, _, _, _, _, hh, _⟩ := c03_pick_sound _ j n g hp
+  obtain ⟨_, _, _, _, _, hh, _⟩ := c03_pick_sound ps _ j n g hp
   have hfalse : gatewayHealthCheck ans = false := by
     cases hd : gatewayHealthCheck ans with
     | false => rfl
@@ -300,28 +305,28 @@ def h1 : List Op :=
   [.sync [⟨a, false⟩, ⟨b, true⟩, ⟨c, false⟩] [[b, c, a], []], .probeFire a true, .probeFire c false,
    .matchAttrs 0 [], .matchAttrs 1 [c, a, b]]
 
-example : (step (stateOf h1) (.pop 0)).2 = .popped (.picked a 0) := by decide
-example : (absOf h1).pickers[0]? = some (some [b, c, a]) := by decide
-example : (step (stateOf h1) (.pop 1)).2 = .popped (.picked a 0) := by decide
+example : (step (stateOf false h1) (.pop 0)).2 = .popped (.picked a 0) := by decide
+example : (absOf false h1).pickers[0]? = some (some [b, c, a]) := by decide
+example : (step (stateOf false h1) (.pop 1)).2 = .popped (.picked a 0) := by decide
 /-- b is disabled: triggering a health check does not make a probe fire -/
-example : (step (stateOf (h1 ++ [.trigger b])) (.probeFire b true)).2 = .notFired := by decide
+example : (step (stateOf true (h1 ++ [.trigger b])) (.probeFire b true)).2 = .notFired := by decide
 /-- a becomes unhealthy: nothing is eligible, the request is answered "no ready endpoints" -/
-example : (step (stateOf (h1 ++ [.updateStatus a false])) (.pop 0)).2 = .popped .noReady := by decide
-example : ∀ n, n ∈ [b, c, a] → (absOf (h1 ++ [.updateStatus a false])).eligible n = false := by decide
+example : (step (stateOf true (h1 ++ [.updateStatus a false])) (.pop 0)).2 = .popped .noReady := by decide
+example : ∀ n, n ∈ [b, c, a] → (absOf true (h1 ++ [.updateStatus a false])).eligible n = false := by decide
 /-- b re-enabled and healthy: with two ready endpoints the cursor alternates -/
 def h2 : List Op := h1 ++ [.sync [⟨a, false⟩, ⟨b, false⟩, ⟨c, false⟩] [[b, c, a], []], .probeFire b true]
-example : (step (stateOf h2) (.pop 0)).2 = .popped (.picked a 0) := by decide
-example : (step (step (stateOf h2) (.pop 0)).1 (.pop 0)).2 = .popped (.picked b 0) := by decide
+example : (step (stateOf false h2) (.pop 0)).2 = .popped (.picked a 0) := by decide
+example : (step (step (stateOf false h2) (.pop 0)).1 (.pop 0)).2 = .popped (.picked b 0) := by decide
 /-- a removed and re-added: a new object (gen 3, the number of the Sync that re-added it) that is not eligible before its first healthy report; the request matched
     before the change is still answered soundly -/
 def h3 : List Op := h2 ++ [.sync [⟨b, false⟩] [[a, b]], .sync [⟨a, false⟩, ⟨b, false⟩] [[a, b]]]
-example : (step (stateOf h3) (.pop 0)).2 = .popped (.picked b 0) := by decide
-example : (step (stateOf (h3 ++ [.probeFire a true])) (.pop 0)).2 = .popped (.picked a 3) := by decide
-example : (step (stateOf h1) (.probeFire a true)).2 = .notFired := by decide
-example : (step (stateOf (h1 ++ [.trigger a])) (.probeFire a true)).2 = .fired a 0 := by decide
+example : (step (stateOf false h3) (.pop 0)).2 = .popped (.picked b 0) := by decide
+example : (step (stateOf true (h3 ++ [.probeFire a true])) (.pop 0)).2 = .popped (.picked a 3) := by decide
+example : (step (stateOf false h1) (.probeFire a true)).2 = .notFired := by decide
+example : (step (stateOf true (h1 ++ [.trigger a])) (.probeFire a true)).2 = .fired a 0 := by decide
 /-- a probe answered 204 fires, reports unhealthy, and the endpoint is not handed out any more -/
-example : (step (stateOf (h1 ++ [.trigger a])) (.probeFire a (gatewayHealthCheck (.status 204 true)))).2 = .fired a 0 := by decide
-example : (step (stateOf (h1 ++ [.trigger a, .probeFire a (gatewayHealthCheck (.status 204 true))])) (.pop 0)).2 = .popped .noReady := by decide
+example : (step (stateOf true (h1 ++ [.trigger a])) (.probeFire a (gatewayHealthCheck (.status 204 true)))).2 = .fired a 0 := by decide
+example : (step (stateOf true (h1 ++ [.trigger a, .probeFire a (gatewayHealthCheck (.status 204 true))])) (.pop 0)).2 = .popped .noReady := by decide
 example : gatewayHealthCheck (.status 200 false) = true ∧ gatewayHealthCheck (.status 206 true) = false ∧
     gatewayHealthCheck (.status 503 true) = false ∧ gatewayHealthCheck .timeout = false := by decide
 end NonVacuous
